@@ -58,6 +58,44 @@ pub fn check_string(sh: &Shared, c: &SCase) -> Check {
     Ok(())
 }
 
+/// lexical parse + fold of a string; an Ok value must be well-formed (used by the fuzz target and a proptest stream)
+pub fn check_lexical_string(sh: &Shared, c: &SCase) -> Check {
+    let fi = c.fi.min(2);
+    if !in_bounds(fi, &c.s) {
+        fail!("harness/bad-case", "input exceeds the bounds");
+    }
+    sh.eval();
+    let s = c.s.as_str();
+    let r = guard(|| match fmts::l(fi).parse(s) {
+        Err(_) => None,
+        Ok(x) => x.try_fold_into(fmts::e(fi)).ok(),
+    });
+    let v = match r {
+        Err(_) => {
+            sh.class("outcome/panic(C05)");
+            return Ok(());
+        }
+        Ok(None) => {
+            sh.class("outcome/rejected");
+            return Ok(());
+        }
+        Ok(Some(v)) => v,
+    };
+    sh.class(&format!("outcome/lexically-accepted/{}", fmts::FMT_NAMES[fi]));
+    let canonical = guard(|| fmts::e(fi).format_narsese(&v)).unwrap_or_default();
+    if norm(&canonical) != norm(s) {
+        sh.nontrivial(fp(&(fi, s, "lexical")));
+        sh.class("lexically-accepted/not-formatter-output");
+    }
+    if let Err(e) = wf::narsese_wf(&v, false) {
+        fail!("ill-formed:lexical-pipeline", "format {}\ninput {s:?}\nlexical parse + fold returned Ok, but: {e}\nvalue {v:?}", fmts::FMT_NAMES[fi]);
+    }
+    if let Err(e) = wf::formats_everywhere(&v) {
+        fail!("unformattable:lexical-pipeline", "input {s:?}\n{e}");
+    }
+    Ok(())
+}
+
 pub fn check_value(sh: &Shared, c: &VCase) -> Check {
     sh.class(&format!("source/{}", c.class));
     for fi in 0..3 {
@@ -130,6 +168,13 @@ pub fn streams() -> Vec<Box<dyn AnyStream>> {
             thorough: 3_000_000,
             source: Source::Gen(Box::new(strategy_strings)),
             check: Box::new(check_string),
+        }),
+        Box::new(Stream::<SCase> {
+            name: "lexical-strings",
+            quick: 30_000,
+            thorough: 1_500_000,
+            source: Source::Gen(Box::new(strategy_strings)),
+            check: Box::new(check_lexical_string),
         }),
         Box::new(Stream::<VCase> {
             name: "values",
